@@ -382,6 +382,8 @@ class SchemaBuilder(
             len(results) == 2
             and all("type" in res for res in results)
             and {"type": "null"} in results
+            # enum/const would still exclude null
+            and not any("enum" in res or "const" in res for res in results)
         ):
             for result in results:
                 if result != {"type": "null"}:
